@@ -314,6 +314,10 @@ class Policy:
     def on_event(self, ev):
         pass
 
+    def on_return(self, interp, name, ret):
+        """value assumptions: may replace the result of a call (e.g. assume a predicate-valued call returned true)"""
+        return ret
+
 
 class Frame:
     __slots__ = ("ctx", "body")
@@ -920,6 +924,8 @@ class Interp:
         if not handled:
             self.unhandled[name] = self.unhandled.get(name, 0) + 1
             ret = self.generic_external(st, frame, name, args)
+        if ret is not None:
+            ret = self.policy.on_return(self, name, ret)
         ev.extra["ret"] = ret
         self.policy.on_event(ev)
         if ret is None:
